@@ -133,6 +133,11 @@ def search(rec, ctx):
     for s in ctx.shard(seeds):
         if len(s) < 300:
             check(rec, {"src": s, "stream": "xonsh-seed"})
+    # rejected inputs that reach the specialised invalid_* diagnostics, literal evaluation, macros, tokenizer errors
+    from .c11 import TARGETED
+
+    for s in ctx.shard(TARGETED):
+        check(rec, {"src": s + "\n", "stream": "targeted-error", "modes": ["exec"]})
 
     def gen(rnd):
         r = rnd.random()
@@ -155,10 +160,15 @@ def search(rec, ctx):
             base = corp[rnd.randrange(len(corp))] if corp and rnd.random() < 0.5 else seeds[rnd.randrange(len(seeds))]
             src, _ = mutate.mutate(rnd, base[:400], xonsh=True)
             stream = "mutation"
-        else:
+        elif r < 0.93:
             base = GATED[rnd.randrange(len(GATED))]
             src, _ = mutate.mutate(rnd, base)
             stream = "gated-mutated"
+        else:
+            from .c11 import TARGETED, wrap
+
+            src, _ = wrap(rnd, TARGETED[rnd.randrange(len(TARGETED))])
+            stream = "targeted-error-wrapped"
         if len(src) > 600:
             return
         check(rec, {"src": src, "stream": stream})
